@@ -1,7 +1,7 @@
-(* C01: how far the position moves when E + omega moves.  For semi-major axis 1 <= a <= 2 earth radii (every
-   near-earth orbit: period < 225 min means a < 1.93) and eL^2 <= 4/25, each coordinate of the report's position
+(* C01: how far the position moves when E + omega moves.  For semi-major axis 1 <= a <= 4 earth radii (every
+   near-earth orbit has a0 < 1.93, so this covers the model's a(t) up to twice its epoch value) and eL^2 <= 4/25, each coordinate of the report's position
        rk * XKMPER * U(uk, Omega_k, i_k)
-   is a Lipschitz function of Ew with constant 310000 km/rad.  With the bound on |Ew - E*| from Kepler's equation this
+   is a Lipschitz function of Ew with constant 570000 km/rad; the velocity with 460 (km/s)/rad for every a >= 1.  With the bound on |Ew - E*| from Kepler's equation this
    turns the stopping rule of the Newton loop into a bound on the position error. *)
 From Coq Require Import Reals Lra.
 From Coquelicot Require Import Coquelicot.
@@ -23,7 +23,7 @@ Section Lip.
   Variable t : tstate.
   Variable e : R.
   Hypothesis HA1 : 1 <= a el t.
-  Hypothesis HA2 : a el t <= 2.
+  Hypothesis HA2 : a el t <= 4.
   Hypothesis HeL : eL2 el t e <= 4 / 25.
 
   Let A := a el t.
@@ -241,7 +241,7 @@ Section Lip.
 
   (* radius (earth radii): rk = K1 * r + K2 * cos 2u,  r = A (1 - e cos E) *)
   Definition rkf (x : R) : R := K1 * (A * (1 - (X * cos x + Y * sin x))) + K2 * c2f x.
-  Lemma LB_rk : LB rkf (81 / 100) (282 / 100).
+  Lemma LB_rk : LB rkf (162 / 100) (562 / 100).
   Proof.
     unfold rkf.
     assert (Hr : LB (fun x => A * (1 - (X * cos x + Y * sin x))) (Rabs A * (0 + 2 / 5)) (Rabs A * (Rabs 1 + 2 / 5))).
@@ -330,23 +330,6 @@ Section Lip.
   Definition Pyf (x : R) : R := rkf x * XKMPER * Uyf x.
   Definition Pzf (x : R) : R := rkf x * XKMPER * Uzf x.
 
-  Lemma LB_P (U : R -> R) : LB U 16 4 -> LB (fun x => rkf x * XKMPER * U x) 310000 100000.
-  Proof.
-    intros HU.
-    apply (LB_weaken _ ((81 / 100 * Rabs XKMPER + 282 / 100 * 0) * 4 + (282 / 100 * Rabs XKMPER) * 16) ((282 / 100 * Rabs XKMPER) * 4)).
-    - apply LB_mul; [|exact HU]. apply LB_mul; [exact LB_rk|apply LB_const].
-    - rewrite Rabs_pos_eq by (unfold XKMPER; lra). unfold XKMPER. lra.
-    - rewrite Rabs_pos_eq by (unfold XKMPER; lra). unfold XKMPER. lra.
-  Qed.
-
-  Theorem position_lipschitz x y :
-    Rabs (Pxf x - Pxf y) <= 310000 * Rabs (x - y) /\
-    Rabs (Pyf x - Pyf y) <= 310000 * Rabs (x - y) /\
-    Rabs (Pzf x - Pzf y) <= 310000 * Rabs (x - y).
-  Proof.
-    repeat split; [apply (LB_lip _ _ _ (LB_P _ LB_Ux))|apply (LB_lip _ _ _ (LB_P _ LB_Uy))|apply (LB_lip _ _ _ (LB_P _ LB_Uz))].
-  Qed.
-
   (* Pxf etc. are the report's position: radius * U(theta, node, inclination) with the report's finishing map *)
   Lemma Suf_spec x : Suf x = sin (uk el t e x (atan2 (sinu el t e x) (cosu el t e x))).
   Proof.
@@ -412,6 +395,24 @@ Section Lip.
   Proof.
     unfold Uzf. apply (LB_weaken _ (2 / 100 * 1 + 1 * (75 / 10)) (1 * 1)); [|lra|lra]. apply LB_mul; [trig|exact LB_Su1].
   Qed.
+  (* position: 570000 km/rad *)
+  Lemma LB_P (U : R -> R) : LB U (152 / 10) 2 -> LB (fun x => rkf x * XKMPER * U x) 570000 100000.
+  Proof.
+    intros HU.
+    apply (LB_weaken _ ((162 / 100 * Rabs XKMPER + 562 / 100 * 0) * 2 + (562 / 100 * Rabs XKMPER) * (152 / 10)) ((562 / 100 * Rabs XKMPER) * 2)).
+    - apply LB_mul; [|exact HU]. apply LB_mul; [exact LB_rk|apply LB_const].
+    - rewrite Rabs_pos_eq by (unfold XKMPER; lra). unfold XKMPER. lra.
+    - rewrite Rabs_pos_eq by (unfold XKMPER; lra). unfold XKMPER. lra.
+  Qed.
+
+  Theorem position_lipschitz x y :
+    Rabs (Pxf x - Pxf y) <= 570000 * Rabs (x - y) /\
+    Rabs (Pyf x - Pyf y) <= 570000 * Rabs (x - y) /\
+    Rabs (Pzf x - Pzf y) <= 570000 * Rabs (x - y).
+  Proof.
+    repeat split; [apply (LB_lip _ _ _ (LB_P _ LB_Ux2))|apply (LB_lip _ _ _ (LB_P _ LB_Uy2))|apply (LB_lip _ _ _ (LB_P _ LB_Uz2))].
+  Qed.
+
   Lemma LB_Vx2 : LB Vxf (152 / 10) 2.
   Proof.
     unfold Vxf. apply (LB_ext (fun x => - sin (Okf x) * cos (ikf x) * Cuf x + (- cos (Okf x)) * Suf x)); [intros; ring|].
@@ -428,18 +429,25 @@ Section Lip.
   Qed.
 
   (* 1 / r = w / A, and the two rates of the report with their short-period corrections [earth radii / min] *)
-  Lemma sqrtA_bounds : 1 <= sqrt A <= 1415 / 1000.
+  Lemma sqrtA_bounds : 1 <= sqrt A.
+  Proof. rewrite <- sqrt_1. apply sqrt_le_1_alt. unfold A. lra. Qed.
+  Lemma sqrtA_sq : sqrt A * sqrt A = A.
+  Proof. apply sqrt_sqrt. unfold A. lra. Qed.
+  (* sqrt A / A = 1 / sqrt A <= 1 and sqrt p / A = b / sqrt A <= 1: the rates do not grow with the semi-major axis *)
+  Lemma sA_over_A : 0 <= sqrt A * / A <= 1.
   Proof.
-    split.
-    - rewrite <- sqrt_1. apply sqrt_le_1_alt. unfold A. lra.
-    - replace (1415 / 1000) with (sqrt ((1415 / 1000) * (1415 / 1000))) by (rewrite sqrt_square; lra).
-      apply sqrt_le_1_alt. unfold A. lra.
+    pose proof sqrtA_bounds as H. pose proof sqrtA_sq as S. assert (HA : 1 <= A) by (unfold A; lra).
+    assert (I0 : 0 < / A) by (apply Rinv_0_lt_compat; lra).
+    assert (I1 : A * / A = 1) by (apply Rinv_r; lra).
+    assert (Hle : sqrt A <= A) by nra.
+    split; [nra|]. rewrite <- I1. apply Rmult_le_compat_r; lra.
   Qed.
-  Lemma sqrtp_bounds : 0 <= sqrt p <= 1415 / 1000.
+  Lemma sp_over_A : 0 <= sqrt p * / A <= 1.
   Proof.
-    split; [apply sqrt_pos|].
-    replace (1415 / 1000) with (sqrt ((1415 / 1000) * (1415 / 1000))) by (rewrite sqrt_square; lra).
-    apply sqrt_le_1_alt. unfold p, pL. pose proof (eL2_nonneg el t e). unfold A in *. nra.
+    pose proof sA_over_A as [H0 H1]. assert (HA : 1 <= A) by (unfold A; lra).
+    assert (Hsp : sqrt p <= sqrt A).
+    { apply sqrt_le_1_alt. unfold p, pL. fold A. pose proof (eL2_nonneg el t e). nra. }
+    pose proof (sqrt_pos p). assert (0 < / A) by (apply Rinv_0_lt_compat; lra). split; nra.
   Qed.
 
   Definition irf (x : R) : R := / A * / (1 - (X * cos x + Y * sin x)).
@@ -454,7 +462,7 @@ Section Lip.
   Definition kn : R := k2 * n el t / p.             (* k2 n / pL *)
   Lemma n_bounds : 0 < n el t <= ke.
   Proof.
-    unfold n. fold A. pose proof sqrtA_bounds. assert (HA : 1 <= A) by (unfold A; lra).
+    unfold n. fold A. pose proof sqrtA_bounds as HsA. assert (HA : 1 <= A) by (unfold A; lra).
     assert (Hd : 1 <= A * sqrt A) by nra. split.
     - apply Rdiv_lt_0_compat; [unfold ke; lra|lra].
     - apply Rmult_le_reg_r with (A * sqrt A); [lra|]. unfold Rdiv. rewrite Rmult_assoc, Rinv_l by lra. unfold ke in *. nra.
@@ -472,30 +480,34 @@ Section Lip.
 
   Lemma LB_rdk : LB rdkf (118 / 1000) (71 / 1000).
   Proof.
-    unfold rdkf. pose proof sqrtA_bounds as HsA. pose proof kn_le as Hk. pose proof th2 as Ht.
-    assert (Hc1 : Rabs (ke * sqrt A) <= 10523 / 100000).
+    pose proof sA_over_A as HsA. pose proof kn_le as Hk. pose proof th2 as Ht.
+    apply (LB_ext (fun x => (ke * (sqrt A * / A)) * ((X * sin x - Y * cos x) * / (1 - (X * cos x + Y * sin x))) - kn * (1 - th ^ 2) * s2f x)).
+    { intros x. unfold rdkf, irf. ring. }
+    assert (Hc1 : Rabs (ke * (sqrt A * / A)) <= 10523 / 100000).
     { rewrite Rabs_pos_eq by (unfold ke; nra). unfold ke. nra. }
     assert (Hc2 : Rabs (kn * (1 - th ^ 2)) <= 5 / 100000).
     { rewrite Rabs_mult. assert (Rabs (1 - th ^ 2) <= 1) by (apply Rabs_le; lra). pose proof (Rabs_pos kn). pose proof (Rabs_pos (1 - th ^ 2)). nra. }
-    apply (LB_weaken _ (Rabs (ke * sqrt A) * (2 / 5 * (5 / 3) + 2 / 5 * (10 / 9)) + Rabs (kn * (1 - th ^ 2)) * 15)
-                       (Rabs (ke * sqrt A) * (2 / 5 * (5 / 3)) + Rabs (kn * (1 - th ^ 2)) * 2)).
-    - apply LB_sub; apply LB_scal; [apply LB_mul; [exact LB_es|exact LB_ir]|exact LB_s2].
-    - pose proof (Rabs_pos (ke * sqrt A)). pose proof (Rabs_pos (kn * (1 - th ^ 2))). nra.
-    - pose proof (Rabs_pos (ke * sqrt A)). pose proof (Rabs_pos (kn * (1 - th ^ 2))). nra.
+    apply (LB_weaken _ (Rabs (ke * (sqrt A * / A)) * (2 / 5 * (5 / 3) + 2 / 5 * (10 / 9)) + Rabs (kn * (1 - th ^ 2)) * 15)
+                       (Rabs (ke * (sqrt A * / A)) * (2 / 5 * (5 / 3)) + Rabs (kn * (1 - th ^ 2)) * 2)).
+    - apply LB_sub; apply LB_scal; [apply LB_mul; [exact LB_es|exact LB_w]|exact LB_s2].
+    - pose proof (Rabs_pos (ke * (sqrt A * / A))). pose proof (Rabs_pos (kn * (1 - th ^ 2))). nra.
+    - pose proof (Rabs_pos (ke * (sqrt A * / A))). pose proof (Rabs_pos (kn * (1 - th ^ 2))). nra.
   Qed.
 
   Lemma LB_rfdk : LB rfdkf (118 / 1000) (176 / 1000).
   Proof.
-    unfold rfdkf. pose proof sqrtp_bounds as Hsp. pose proof kn_le as Hk. pose proof th2 as Ht.
-    assert (Hc1 : Rabs (ke * sqrt p) <= 10523 / 100000).
+    pose proof sp_over_A as Hsp. pose proof kn_le as Hk. pose proof th2 as Ht.
+    apply (LB_ext (fun x => (ke * (sqrt p * / A)) * / (1 - (X * cos x + Y * sin x)) + kn * ((1 - th ^ 2) * c2f x - 3 / 2 * (1 - 3 * th ^ 2)))).
+    { intros x. unfold rfdkf, irf. ring. }
+    assert (Hc1 : Rabs (ke * (sqrt p * / A)) <= 10523 / 100000).
     { rewrite Rabs_pos_eq by (unfold ke; nra). unfold ke. nra. }
     assert (Hc2 : Rabs (1 - th ^ 2) <= 1) by (apply Rabs_le; lra).
     assert (Hc3 : Rabs (3 / 2 * (1 - 3 * th ^ 2)) <= 3) by (apply Rabs_le; lra).
-    apply (LB_weaken _ (Rabs (ke * sqrt p) * (10 / 9) + Rabs kn * (Rabs (1 - th ^ 2) * 15 + 0))
-                       (Rabs (ke * sqrt p) * (5 / 3) + Rabs kn * (Rabs (1 - th ^ 2) * 3 + Rabs (3 / 2 * (1 - 3 * th ^ 2))))).
-    - apply LB_add; apply LB_scal; [exact LB_ir|]. apply LB_sub; [apply LB_scal; exact LB_c2|apply LB_const].
-    - pose proof (Rabs_pos (ke * sqrt p)). pose proof (Rabs_pos kn). pose proof (Rabs_pos (1 - th ^ 2)). nra.
-    - pose proof (Rabs_pos (ke * sqrt p)). pose proof (Rabs_pos kn). pose proof (Rabs_pos (1 - th ^ 2)). pose proof (Rabs_pos (3 / 2 * (1 - 3 * th ^ 2))). nra.
+    apply (LB_weaken _ (Rabs (ke * (sqrt p * / A)) * (10 / 9) + Rabs kn * (Rabs (1 - th ^ 2) * 15 + 0))
+                       (Rabs (ke * (sqrt p * / A)) * (5 / 3) + Rabs kn * (Rabs (1 - th ^ 2) * 3 + Rabs (3 / 2 * (1 - 3 * th ^ 2))))).
+    - apply LB_add; apply LB_scal; [exact LB_w|]. apply LB_sub; [apply LB_scal; exact LB_c2|apply LB_const].
+    - pose proof (Rabs_pos (ke * (sqrt p * / A))). pose proof (Rabs_pos kn). pose proof (Rabs_pos (1 - th ^ 2)). nra.
+    - pose proof (Rabs_pos (ke * (sqrt p * / A))). pose proof (Rabs_pos kn). pose proof (Rabs_pos (1 - th ^ 2)). pose proof (Rabs_pos (3 / 2 * (1 - 3 * th ^ 2))). nra.
   Qed.
 
   (* velocity in km/s: (rdotk U + rfdotk V) * 106.30225 *)
